@@ -196,6 +196,13 @@ def ref_node(node, vals, l):
         return None
     if kind == 'multi':
         return _ref_multi(node, vals, l)
+    if kind == 'rnd':
+        # secure randomness: many correct outputs, validity predicate in compare()
+        if node[1] == 'bits' and not 0 <= node[2] <= 6:
+            raise Invalid
+        if node[1] == 'random' and node[2] is not None and node[2] < 1:
+            raise Invalid
+        return ['rnd'] + list(node[1:])
     raise Invalid
 
 
@@ -315,7 +322,7 @@ def value_strategy(l, small=False):
 
 
 @st.composite
-def int_program(draw, m, l, max_nodes=10, heavy=True, awaits=False, min_nodes=2):
+def int_program(draw, m, l, max_nodes=10, heavy=True, awaits=False, min_nodes=2, rnd=False):
     """Draw a valid secure-integer program for m parties and bit length l."""
     nodes = []
     vals = []
@@ -339,6 +346,8 @@ def int_program(draw, m, l, max_nodes=10, heavy=True, awaits=False, min_nodes=2)
         kinds += ['await'] * 2 + ['barrier', 'coro', 'modlike', 'modlike', 'modlike']
     if heavy:
         kinds += ['heavy']
+    if rnd:
+        kinds += ['rnd', 'rnd']
     for _ in range(n_ops):
         for _attempt in range(4):
             kind = draw(st.sampled_from(kinds))
@@ -408,6 +417,15 @@ def int_program(draw, m, l, max_nodes=10, heavy=True, awaits=False, min_nodes=2)
                 nd = ['await', draw(st.sampled_from(['output', 'gather', 'sleep'])), draw(ref)]
             elif kind == 'barrier':
                 nd = ['barrier']
+            elif kind == 'rnd':
+                rk = draw(st.sampled_from(['bit', 'bits', 'random']))
+                if rk == 'bit':
+                    nd = ['rnd', 'bit', draw(st.booleans())]
+                elif rk == 'bits':
+                    nd = ['rnd', 'bits', draw(st.integers(0, 4)), draw(st.booleans())]
+                else:
+                    nd = ['rnd', 'random', draw(st.one_of(st.none(), st.integers(1, 1 << (l - 1)),
+                                                          st.sampled_from([1, 2, 3, 1 << (l - 1)])))]
             elif kind == 'coro':
                 nd = ['coro', draw(ref), draw(ref)]
             else:  # multi
@@ -566,6 +584,13 @@ def make_party_program(nodes, l, receivers=None, on_value=None, collect_shares=F
                 v = None
             elif k == 'multi':
                 v = _secure_multi(mpc, nd, vals)
+            elif k == 'rnd':
+                if nd[1] == 'bit':
+                    v = mpc.random_bit(secint, bool(nd[2]))
+                elif nd[1] == 'bits':
+                    v = list(mpc.random_bits(secint, nd[2], bool(nd[3])))
+                else:
+                    v = mpc._random(secint, nd[2])
             else:
                 raise ValueError(k)
             vals.append(v)
@@ -583,12 +608,8 @@ def make_party_program(nodes, l, receivers=None, on_value=None, collect_shares=F
         if collect_shares:
             shares = []
             for nd, v in zip(nodes, vals):
-                if is_scalar(nd) and hasattr(v, 'share'):
-                    s = await mpc.gather(v)
-                    shares.append(int(s.value))
-                else:
-                    shares.append(None)
-        return dict(outs=outs, shares=shares)
+                shares.append(await _own_shares(mpc, v))
+        return dict(outs=outs, shares=shares, modulus=int(secint.field.modulus))
 
     return prog
 
@@ -628,6 +649,16 @@ def _secure_multi(mpc, nd, vals):
     raise ValueError(op)
 
 
+async def _own_shares(mpc, v):
+    """This party's own share(s) of v via the public mpc.gather (None for public values)."""
+    if isinstance(v, list):
+        return [await _own_shares(mpc, x) for x in v]
+    if hasattr(v, 'share'):
+        s = await mpc.gather(v)
+        return int(s.value)
+    return None
+
+
 def _open(mpc, v, receivers):
     if v is None or isinstance(v, (bool, int)):
         return v
@@ -659,12 +690,32 @@ def compare(nodes, ref_vals, outs):
             if g != math.gcd(a, b) or s * a + t * b != g:
                 return f'node {i} {nd}: gcdext({a},{b}) -> {got} violates g=gcd and s*a+t*b=g'
             continue
+        if isinstance(want, list) and want and want[0] == 'rnd':
+            msg = _check_rnd(want, got)
+            if msg:
+                return f'node {i} {nd}: {msg}'
+            continue
         if isinstance(want, bool):
             if bool(got) != want or not isinstance(got, bool):
                 return f'node {i} {nd}: expected {want}, got {got!r}'
             continue
         if got != want or _has_bool(got):
             return f'node {i} {nd}: expected {want}, got {got!r}'
+    return None
+
+
+def _check_rnd(want, got):
+    kind = want[1]
+    if kind == 'bit':
+        ok = got in ((-1, 1) if want[2] else (0, 1))
+        return None if ok else f'random bit (signed={want[2]}) opened to {got!r}'
+    if kind == 'bits':
+        allowed = (-1, 1) if want[3] else (0, 1)
+        if not isinstance(got, list) or len(got) != want[2] or any(b not in allowed for b in got):
+            return f'random_bits({want[2]}, signed={want[3]}) opened to {got!r}'
+        return None
+    if want[2] is not None and not (isinstance(got, int) and 0 <= got < want[2]):
+        return f'_random(bound={want[2]}) opened to {got!r}'
     return None
 
 
